@@ -116,7 +116,13 @@ func (p Prop) Generate(rng *rand.Rand, tier string) []corr.Case {
 }
 
 func (p Prop) RunImpl(c corr.Case) ([]string, []corr.Fail) {
-	out, fails := Replay(c)
+	replay := Replay
+	for _, pre := range p.Prefixes {
+		if pre == "c05-" {
+			replay = ReplayLookups // C05: every public lookup is compared with the current chain after every step
+		}
+	}
+	out, fails := replay(c)
 	var mine []corr.Fail
 	for _, f := range fails {
 		for _, pre := range p.Prefixes {
